@@ -131,6 +131,9 @@ func RunBlock(b *Block, ch vrt.Chooser, trace bool) (out explore.Outcome, x *Ctx
 		b.Check(x)
 	}
 	left := w.Finish()
+	for _, p := range w.Panics {
+		x.fail("panic", "goroutine-panicked:"+p.Label+":"+panicSite(p.Stack), "a server goroutine (%s) panicked: %s", p.Label, p.Value)
+	}
 	if b.Final != nil {
 		b.Final(x, left)
 	}
@@ -292,9 +295,13 @@ func oracleTags(oracle string) []string {
 	case "gauge", "orphaned-join", "empty-session-discoverable", "duplicate-session-id", "frame-worker":
 		return []string{"C07"}
 	case "id", "id-source":
-		return []string{"C10", "C05", "C12"}
+		return []string{"C10", "C05", "C12", "C04"}
 	case "race":
 		return []string{"C09"}
+	case "panic":
+		return []string{"C08", "C09"}
+	case "liveness":
+		return []string{"C11", "C09", "C02"}
 	}
 	return nil
 }
